@@ -3,6 +3,7 @@
 use vcore::runner::{unhex, Mode, Report, Tier};
 
 mod c08;
+mod c09;
 
 fn main() {
     let args: Vec<String> = std::env::args().collect();
@@ -27,6 +28,7 @@ fn main() {
     let report = Report::new(&id, tier, mode);
     match id.as_str() {
         "C08" => c08::run(report),
+        "C09" => c09::run(report),
         _ => {
             eprintln!("unknown property {id}");
             std::process::exit(2)
